@@ -154,6 +154,21 @@ func (e *didEnv) sign(k *didKey, data *didtypes.DIDDocument, seq uint64) []byte 
 	return sig
 }
 
+// signRaw produces a real signature by key k over arbitrary bytes (a proof of some other form than the module's) and
+// tells the model that exactly this triple verifies.
+func (e *didEnv) signRaw(k *didKey, msg []byte) []byte {
+	sig, err := k.priv.Sign(msg)
+	if err != nil {
+		panic(err)
+	}
+	key := hx(sig) + hx(k.pub) + hx(k.priv.last)
+	if !e.sigs[key] {
+		e.sigs[key] = true
+		e.s.Emit(fmt.Sprintf("sig %s %s %s", hx(sig), hx(k.pub), hx(k.priv.last)), "-")
+	}
+	return sig
+}
+
 func roundTripCreate(m *didtypes.MsgCreateDIDRequest) *didtypes.MsgCreateDIDRequest {
 	bz, err := m.Marshal()
 	if err != nil {
@@ -529,6 +544,9 @@ func genDoc(rng *rand.Rand, docID string, idt *didIdent) (*didtypes.DIDDocument,
 	}
 	if rng.Intn(4) == 0 {
 		c := didtypes.JSONStringOrStrings{docID}
+		if len(foreignControllers) > 0 && rng.Intn(2) == 0 {
+			c = didtypes.JSONStringOrStrings{foreignControllers[rng.Intn(len(foreignControllers))]}
+		}
 		d.Controller = &c
 	}
 	if rng.Intn(5) == 0 {
@@ -727,6 +745,16 @@ func didHistory(e *didEnv, rng *rand.Rand, idents []*didIdent, relayers []string
 				signed, _ = genDoc(rng, it.did, it) // signature over different content
 			}
 			sig := e.sign(key, signed, seq)
+			switch rng.Intn(14) {
+			case 0: // a proof over the document's JSON form, which names no sequence
+				sig = e.signRaw(key, doc.GetSignBytes())
+			case 1: // a proof by a key of another identity, under that identity's method id and sequence
+				o := idents[rng.Intn(len(idents))]
+				if o != it && len(o.authKey) > 0 {
+					oid, ok2 := pickAuth(o)
+					vmID, sig = oid, e.sign(ok2, doc, o.seq)
+				}
+			}
 			m := &didtypes.MsgUpdateDIDRequest{Did: it.did, Document: doc, VerificationMethodId: vmID, Signature: sig, FromAddress: from()}
 			if rng.Intn(40) == 0 {
 				m.Document = nil
@@ -755,6 +783,9 @@ func didHistory(e *didEnv, rng *rand.Rand, idents []*didIdent, relayers []string
 				target = idents[rng.Intn(len(idents))].did
 			}
 			sig := e.sign(key, &didtypes.DIDDocument{Id: target}, seq)
+			if rng.Intn(8) == 0 {
+				sig = e.sign(key, &didtypes.DIDDocument{}, seq) // a proof over what gets stored (the tombstone), which names no DID
+			}
 			m := &didtypes.MsgDeactivateDIDRequest{Did: it.did, VerificationMethodId: vmID, Signature: sig, FromAddress: from()}
 			ok := e.deactivate(m)
 			if ok {
